@@ -6,7 +6,7 @@ bounds/liveness checked.  Integers are Python ints when concrete, z3 terms when
 symbolic (BV mode: BitVec; INT mode: Int in [0,2^n) with explicit wrap).
 Branches on symbolic conditions fork (DFS by re-execution from a decision prefix).
 """
-import sys, time, struct, re
+import sys, time, struct, re, os
 sys.path.insert(0, __import__('os').path.dirname(__import__('os').path.abspath(__file__)))
 sys.setrecursionlimit(100000)
 import z3
@@ -101,7 +101,7 @@ class Interp:
         self.m = mod; self.mode = mode; self.L = Layout()
         self.models = {}; self.overrides = {}
         self.step_cap = step_cap
-        self.solver = z3.Solver()
+        self.solver = z3.Solver(); self.solver.set('timeout', int(os.environ.get('VERIF_QUERY_TIMEOUT_MS', '90000')))
         self.stats = dict(paths=0, queries=0, solver_s=0.0, funcs=set(), findings=[], steps=0, unsupported=[])
         self.ti_base = {}
         self.symcount = 0
@@ -158,7 +158,9 @@ class Interp:
     def check(self, extra=None):
         t = time.time(); self.stats['queries'] += 1
         r = self.solver.check(*([extra] if extra is not None else []))
-        self.stats['solver_s'] += time.time() - t
+        dt = time.time() - t; self.stats['solver_s'] += dt
+        if dt > 5 and os.environ.get('VERIF_SLOWQ'):
+            sys.stderr.write('SLOW QUERY %.1fs result=%s extra=%s\n  pc=%s\n' % (dt, r, extra, [str(c)[:200] for c in self.pc][-12:]))
         if r == z3.unknown: raise Unsupported('solver unknown')
         return r == z3.sat
 
